@@ -14,6 +14,7 @@ pub mod io {
     #[verifier::external_body]
     pub struct Error { _p: () }
     pub enum ErrorKind { Other, UnexpectedEof }
+    pub enum SeekFrom { Start(u64) }
     pub type Result<T> = core::result::Result<T, Error>;
     impl Error {
         #[verifier::external_body]
@@ -32,6 +33,11 @@ pub mod io {
                     &&& (p >= f.len() ==> s.len() == 0)
                     &&& (p < f.len() ==> 1 <= s.len() <= f.len() - p)
                     &&& s == f.subrange(p, p + s.len()) })
+        { unimplemented!() }
+        #[verifier::external_body]
+        pub fn seek(&mut self, pos: SeekFrom) -> (r: Result<u64>)
+            ensures final(self).file() == old(self).file(),
+                r is Ok ==> (match pos { SeekFrom::Start(o) => final(self).pos() == o && r->Ok_0 == o }),
         { unimplemented!() }
         #[verifier::external_body]
         pub fn consume(&mut self, n: usize)
@@ -101,6 +107,95 @@ proof fn lemma_byte_of(idx: IndexRecord, pos: int, j: int)
     lemma_fundamental_div_mod_converse(b, lb, q, r + j);
 }
 impl IndexedReader {
+    fn seek_to(&mut self, idx: &IndexRecord, start: u64) -> (res: io::Result<u64>)
+        requires idx_ok(*idx), start <= idx.len, idx.offset + (idx.len / idx.line_bases + 1) * idx.line_bytes < 0x7fff_ffff_ffff_0000,
+        ensures final(self).reader.file() == old(self).reader.file(),
+            res is Ok ==> final(self).reader.pos() >= idx.offset && final(self).reader.pos() < 0x7fff_ffff_ffff_0000
+                && res->Ok_0 == line_off(*idx, final(self).reader.pos())
+                && nb(*idx, final(self).reader.pos()) == start,
+    {
+        assert!(start <= idx.len);
+
+        proof {
+            let lb = idx.line_bases as int; let m = idx.line_bytes as int; let st = start as int;
+            lemma_fundamental_div_mod(st, lb); lemma_mod_bound(st, lb); lemma_div_pos_is_pos(st, lb);
+            lemma_div_is_ordered(st, idx.len as int, lb);
+            assert((st / lb) * m <= (idx.len as int / lb) * m) by (nonlinear_arith) requires st / lb <= idx.len as int / lb, m >= 1;
+            assert((idx.len as int / lb + 1) * m == (idx.len as int / lb) * m + m) by (nonlinear_arith);
+        }
+        let line_offset = start % idx.line_bases;
+        let line_start = start / idx.line_bases * idx.line_bytes;
+        let offset = idx.offset + line_start + line_offset;
+        self.reader.seek(io::SeekFrom::Start(offset))?;
+        proof {
+            let lb = idx.line_bases as int; let m = idx.line_bytes as int; let st = start as int;
+            let x = offset - idx.offset;
+            lemma_fundamental_div_mod_converse(x, m, st / lb, st % lb);
+            lemma_mul_is_commutative(lb, st / lb);
+        }
+
+        Ok(line_offset)
+    }
+
+    fn read_into_buffer(
+        &mut self,
+        idx: IndexRecord,
+        start: u64,
+        stop: u64,
+        seq: &mut Vec<u8>,
+    ) -> (res: io::Result<()>)
+        requires idx_ok(idx), idx.offset + (idx.len / idx.line_bases + 1) * idx.line_bytes < 0x7fff_ffff_ffff_0000,
+            old(self).reader.file().len() < 0x7fff_ffff_ffff_0000,
+        ensures final(self).reader.file() == old(self).reader.file(),
+            (stop > idx.len || start > stop) ==> res is Err,
+            res is Ok ==> final(seq)@.len() == stop - start
+                && forall|j: int| 0 <= j < stop - start ==> 0 <= #[trigger] byte_of(idx, start + j) < old(self).reader.file().len()
+                    && final(seq)@[j] == old(self).reader.file()[byte_of(idx, start + j)],
+    {
+        if stop > idx.len {
+            return Err(io::Error::new(
+                io::ErrorKind::Other,
+                "FASTA read interval was out of bounds",
+            ));
+        } else if start > stop {
+            return Err(io::Error::new(
+                io::ErrorKind::Other,
+                "Invalid query interval",
+            ));
+        }
+
+        let mut bases_left = stop - start;
+        let mut line_offset = self.seek_to(&idx, start)?;
+
+        seq.clear();
+        let ghost file = self.reader.file();
+        while bases_left > 0
+            invariant idx_ok(idx), self.reader.file() == file, file == old(self).reader.file(), file.len() < 0x7fff_ffff_ffff_0000,
+                self.reader.pos() >= idx.offset, self.reader.pos() < 0x7fff_ffff_ffff_0000,
+                line_offset == line_off(idx, self.reader.pos()),
+                start <= stop, bases_left <= stop - start,
+                nb(idx, self.reader.pos()) == stop - bases_left,
+                seq@.len() == stop - start - bases_left,
+                forall|j: int| 0 <= j < seq@.len() ==> 0 <= #[trigger] byte_of(idx, start + j) < file.len() && seq@[j] == file[byte_of(idx, start + j)],
+            decreases file.len() - self.reader.pos() + 0x8000_0000_0000_0000
+        {
+            let ghost p0 = self.reader.pos(); let ghost seq0 = seq@; let ghost done = seq@.len() as int;
+            let k = self.read_line(&idx, &mut line_offset, bases_left, seq)?;
+            proof {
+                assert forall|j: int| 0 <= j < seq@.len() implies 0 <= #[trigger] byte_of(idx, start + j) < file.len() && seq@[j] == file[byte_of(idx, start + j)] by {
+                    if j >= done {
+                        let jj = j - done;
+                        assert(byte_of(idx, nb(idx, p0) + jj) == p0 + jj);
+                        assert(seq@[j] == file.subrange(p0, p0 + k)[jj]);
+                    } else { assert(seq@[j] == seq0[j]); }
+                }
+            }
+            bases_left -= k;
+        }
+
+        Ok(())
+    }
+
     fn read_line(
         &mut self,
         idx: &IndexRecord,
@@ -117,6 +212,7 @@ impl IndexedReader {
                 let k = res->Ok_0 as int; let p0 = old(self).reader.pos(); let p1 = final(self).reader.pos();
                 &&& 0 <= k <= bases_left
                 &&& p0 < p1 <= old(self).reader.file().len()
+                &&& p0 + k <= p1
                 &&& *final(line_offset) == line_off(*idx, p1)
                 &&& nb(*idx, p1) == nb(*idx, p0) + k
                 &&& final(buf)@ == old(buf)@ + old(self).reader.file().subrange(p0, p0 + k)
